@@ -27,12 +27,23 @@ type c09Case struct {
 	arms      []int // indices of cases, in arm order
 	forms     []int // per arm: 0 bind-and-use, 1 '_', 2 no pattern (payload cases); 0 for bare
 	deflt     bool
+	naming    int // 0 Zqa, Zqb, ...; 1 names that are prefixes of one another / differ only in letter case
 	target    int // what is matched: 0 an annotated parameter, 1 the result of a call, 2 a let-bound constructor value, 3 like 2 on a generic union (instantiation inferred)
 	host      int // 0 top-level body, 1 if branch, 2 lambda body, 3 let rhs, 4 arm of outer match, 5 pipe stage, 6 block arm bodies
 	src       string
 	src2      string // second file (two-file host)
 	accept    bool
 	uncovered []string
+}
+
+// naming scheme 1: case names that are prefixes of one another or differ only in the case of a letter
+var c09PrefixNames = []string{"Zq", "Zqq", "ZqQ", "Zqqq", "ZqqQ"}
+
+func (cs *c09Case) nm(i int) string {
+	if cs.naming == 1 {
+		return c09PrefixNames[i]
+	}
+	return c09Name(i)
 }
 
 func c09Name(i int) string {
@@ -86,7 +97,10 @@ func c09Driver(maxN, hostMaxN int) func(c *explore.Chooser) *c09Case {
 		if cs.n <= hostMaxN {
 			cs.host = c.Choose(c09Hosts)
 		}
-		if cs.host == 0 && cs.n <= hostMaxN {
+		if cs.host == 0 && cs.n >= 2 && cs.n <= hostMaxN {
+			cs.naming = c.Choose(2)
+		}
+		if cs.naming == 0 && cs.host == 0 && cs.n <= hostMaxN {
 			// the type of the target comes from an annotation or from inference (call result, let-bound value)
 			cs.target = c.Choose(4)
 		}
@@ -96,7 +110,7 @@ func c09Driver(maxN, hostMaxN int) func(c *explore.Chooser) *c09Case {
 		}
 		for i := 0; i < cs.n; i++ {
 			if !covered[i] {
-				cs.uncovered = append(cs.uncovered, c09Name(i))
+				cs.uncovered = append(cs.uncovered, cs.nm(i))
 			}
 		}
 		cs.accept = cs.deflt || len(cs.uncovered) == 0
@@ -123,16 +137,16 @@ func c09Render(cs *c09Case, suffix string) string {
 			if cs.target == 3 {
 				pt = "T"
 			}
-			fmt.Fprintf(&sb, "  | %s%s of %s\n", c09Name(i), suffix, pt)
+			fmt.Fprintf(&sb, "  | %s%s of %s\n", cs.nm(i), suffix, pt)
 		} else {
-			fmt.Fprintf(&sb, "  | %s%s\n", c09Name(i), suffix)
+			fmt.Fprintf(&sb, "  | %s%s\n", cs.nm(i), suffix)
 		}
 	}
 	sb.WriteString("\n")
 	arms := func(ind string, block bool) string {
 		var ab strings.Builder
 		for k, a := range cs.arms {
-			nm := c09Name(a) + suffix
+			nm := cs.nm(a) + suffix
 			val := fmt.Sprint(100 + a)
 			pat := nm
 			if cs.payload[a] {
@@ -158,7 +172,7 @@ func c09Render(cs *c09Case, suffix string) string {
 	fn := "f" + suffix
 	switch cs.host {
 	case 0:
-		ctor0 := c09Name(0) + suffix
+		ctor0 := cs.nm(0) + suffix
 		if cs.payload[0] {
 			ctor0 += " 1"
 		} else if cs.target == 3 {
@@ -190,9 +204,9 @@ func c09Render(cs *c09Case, suffix string) string {
 		fmt.Fprintf(&sb, "type %s =\n", un)
 		for i := 0; i < cs.n; i++ {
 			if cs.payload[i] {
-				fmt.Fprintf(&sb, "  | %s%s of int\n", c09Name(i), suffix)
+				fmt.Fprintf(&sb, "  | %s%s of int\n", cs.nm(i), suffix)
 			} else {
-				fmt.Fprintf(&sb, "  | %s%s\n", c09Name(i), suffix)
+				fmt.Fprintf(&sb, "  | %s%s\n", cs.nm(i), suffix)
 			}
 		}
 		fmt.Fprintf(&sb, "\nlet %s (u:%s) =\n  match \"k\" with\n  | \"k\" ->\n    match u with\n%s  | _ -> 0\n", fn, un, arms("    ", false))
@@ -385,7 +399,7 @@ func checkC09(c *core.Ctx) {
 				if c.TooManyViolations() {
 					continue
 				}
-				if c09RunOne(c, fc, sc.PkgAllFoi(), dir, cs) && cs.n <= 3 && cs.host < 100 && cs.target == 0 {
+				if c09RunOne(c, fc, sc.PkgAllFoi(), dir, cs) && cs.n <= 3 && cs.host < 100 && cs.target == 0 && cs.naming == 0 {
 					acceptedMu.Lock()
 					accepted = append(accepted, cs)
 					acceptedMu.Unlock()
@@ -445,7 +459,7 @@ func checkC09(c *core.Ctx) {
 	}
 }
 
-var c09Word = regexp.MustCompile(`Zq[a-z]+`)
+var c09Word = regexp.MustCompile(`Zq[A-Za-z]*`)
 
 // returns true if the program was accepted as expected
 func c09RunOne(c *core.Ctx, fc, foi, dir string, cs *c09Case) bool {
